@@ -21,10 +21,10 @@ for fn in ('percent_encode', 'percent_encode_idx', 'percent_encode_append', 'per
                     bufn=4, unwind=16, defines=['STR_CAP=14', 'BUF_START=1'], includes=INC, solver='cadical', timeout=900,
                     bound='input <= 4 bytes, arbitrary 256-bit set, output capacity 14',
                     note='encoder entry point == reference "percent-encode after encoding" for an arbitrary set'))
-OBLS.append(Obl('C11.percent_decode.exact/b7', ['C11', 'C12', 'C02'], 'B(7)', 'c11/decode_exact.c', roots=['percent_decode', 'form_urlencoded_decode'],
-                bufn=7, unwind=9, defines=['STR_CAP=8', 'BUF_START=1'], includes=INC, globals=[], solver='cadical', timeout=900, bound='input <= 7 bytes',
+OBLS.append(Obl('C11.percent_decode.exact/b6', ['C11', 'C12', 'C02'], 'B(6)', 'c11/decode_exact.c', roots=['percent_decode', 'form_urlencoded_decode'],
+                bufn=6, unwind=8, defines=['STR_CAP=7', 'BUF_START=1'], includes=INC, globals=[], solver='cadical', timeout=900, bound='input <= 6 bytes',
                 note='percent_decode and form_urlencoded_decode == the Standard\'s percent-decode (malformed escapes literal, + -> space)'))
-OBLS.append(Obl('C11.decode_encode.roundtrip/b4', ['C11', 'C12', 'C02'], 'B(4)', 'c11/roundtrip.c', roots=['percent_encode', 'percent_decode', 'form_urlencoded_decode'],
+OBLS.append(Obl('C11.decode_encode.roundtrip/b4', ['C11', 'C12', 'C02'], 'B(4)', 'c11/roundtrip.c', roots=['percent_encode', 'percent_decode', 'form_urlencoded_decode'], tier='thorough',
                 bufn=4, unwind=14, defines=['STR_CAP=12', 'BUF_START=1'], includes=INC, globals=[('WWW_FORM_URLENCODED_PERCENT_ENCODE', U8_32)], solver='kissat', timeout=900,
                 bound='input <= 4 bytes, arbitrary set containing %', note='decode(encode_S(x)) == x whenever % is in S; form codec round trip with space/+'))
 both_args = dict(roots=['percent_encode_index'], specs={'percent_encode_index': 'percent_encode_index.spec'}, enforce='percent_encode_index',
